@@ -361,10 +361,11 @@ def build_facts(tier="quick", verbose=False):
             except OSError:
                 pass
             return work
-        # prune old work dirs (disk is limited): keep the five most recently used besides this one
+        # prune old work dirs (disk is limited): keep the eight most recently used besides this one, and anything used in the last half hour
         olds = sorted((d for d in glob.glob(os.path.join(CACHE, "w-*")) if d != work), key=os.path.getmtime, reverse=True)
-        for d in olds[5:]:
-            subprocess.run(["rm", "-rf", d])
+        for d in olds[8:]:
+            if time.time() - os.path.getmtime(d) > 1800:      # never a directory another run may still be reading
+                subprocess.run(["rm", "-rf", d])
         os.makedirs(work, exist_ok=True)
         t0 = time.time()
         overlay, shimmed = make_overlay(work)
